@@ -34,17 +34,17 @@ contracts = {
     params={"self": REF, "job": REF, "eval_args": OBJ}, classes={"self": "Scheduler", "job": "Job"},
     requires=[R, U, "not submitted[job]"], ensures=[R, U],
     # the only hand-off to an executor: the job is the only non-opted-out submitted job of its key
-    at_call={"submit": [NOTWIN, "arg0 == job", "self._pending_jobs.get((job.eval_hash, job.context_hash)) != None",
+    at_call={"submit": [NOTWIN, "arg0 == job",
                         "implies(not " + OPTOUT.format(j="job") + ", self._pending_jobs.get((job.eval_hash, job.context_hash)) == Some(job))"],
-             "submit_script": [NOTWIN, "arg0 == job", "self._pending_jobs.get((job.eval_hash, job.context_hash)) != None",
+             "submit_script": [NOTWIN, "arg0 == job",
                                "implies(not " + OPTOUT.format(j="job") + ", self._pending_jobs.get((job.eval_hash, job.context_hash)) == Some(job))"]},
     on_call={"submit": "submitted[arg0] = True", "submit_script": "submitted[arg0] = True"},
     post_hooks={"job-submitted-only-after-pending-check-and-cache-miss": lambda eng, st, entry: eng.spec(
         "implies(submitted[job], checked_pending and checked_cache)", st, entry)},
     ghost_local={"checked_pending": BOOL, "checked_cache": BOOL}, ghost_init=["not checked_pending", "not checked_cache"],
-    after_call={("Scheduler._check_pending_job", 0): "checked_pending = (result == None)", ("Scheduler._get_cache", 0): "checked_cache = not truthy(result1)"},
+    after_call={("Scheduler._check_pending_job", 0): "checked_pending = (result == None)", ("Scheduler._get_cache", 0): "checked_cache = not result1"},
     must_call=["_check_pending_job", "_get_cache"], ghost=GH),
- "Scheduler._get_cache": dict(where=f"{S}:Scheduler._get_cache", params={"self": REF, "job": REF}, returns=Tup(OBJ, OBJ, OBJ),
+ "Scheduler._get_cache": dict(where=f"{S}:Scheduler._get_cache", params={"self": REF, "job": REF}, returns=[OBJ, BOOL, OBJ],
     ensures=["self._pending_jobs == old(self._pending_jobs)", "submitted == old(submitted)"], ghost=GH),
  "Scheduler._finalize_job": dict(where=f"{S}:Scheduler._finalize_job", params={"self": REF, "job": REF},
     classes={"self": "Scheduler", "job": "Job"},
@@ -70,20 +70,54 @@ def get_option(eng, n, st, old):
 
 
 MODULE = Module(
-    fields={"_pending_jobs": PEND, "eval_hash": Opt(STR), "context_hash": Opt(STR)},
+    fields={"_pending_jobs": PEND, "eval_hash": Opt(STR), "context_hash": Opt(STR), "was_cached": BOOL},
     stable={"task": REF, "script": OBJ},
-    ufuns={"cache_scope_of": ([REF], OBJ), "allowed_of": ([REF], Opt(Set(OBJ))), "truthy": ([OBJ], BOOL)},
+    # assumed contract, proved under C27 (Scheduler._evaluate_apply / options_then): a job that records no provenance is evaluated
+    # with cache_scope NONE, so "runs without provenance" (property statement) implies the code's opt-out condition
+    axioms=["(forall ((j Ref)) (! (=> (not (|prov_of| j)) (= (|cache_scope_of| j) |enum_CacheScope.NONE|)) :pattern ((|prov_of| j))))"],
+    ufuns={"prov_of": ([REF], BOOL), "cache_scope_of": ([REF], OBJ), "allowed_of": ([REF], Opt(Set(OBJ))), "truthy": ([OBJ], BOOL)},
     enums={"CacheScope": ["NONE", "CSE", "BACKEND"], "CacheResult": ["CSE", "SINGLE", "ULTIMATE", "MISS"]},
     sortnames={"Key": KEY},
-    lib={"job.get_option(": get_option},
+    lib={"job.get_option(": get_option,
+         "job.recording_provenance()": lambda eng, n, st, old: eng.ctx.app("prov_of", [REF], BOOL, [eng.ev(n.func.value, st, old)])},
     classes={"self": "Scheduler", "job": "Job"}, contracts=contracts,
 )
+from pvc import frame_scan, bounded
+from pvc.result import Result
+
+
+def frame_checks(tier, seed):
+    F = "redun/scheduler.py:"
+    D = "redun/executors/docker.py:DockerExecutor."
+    # the scan is by attribute name: DockerExecutor has a table of its own with the same name (docker job id -> Job), JobInfo is a
+    # read-only snapshot class with an eval_hash field, and `redun launch` (launch_script) builds a fresh Job outside any scheduler run
+    other_pending = {D + "__init__", D + "_process_job_status", D + "_submit"}
+    other_hash = {F + "JobInfo.__init__", F + "JobInfo.__setstate__", "redun/executors/launch.py:launch_script"}
+    return [
+        # every writer of the registration table is under contract above (or is the constructor)
+        frame_scan.check("C06", "_pending_jobs", {F + "Scheduler.__init__", F + "Scheduler.clear", F + "Scheduler._exec_job_main_thread", F + "Scheduler._finalize_job"} | other_pending, Result),
+        # the call key of a job is written only before its registration (constructor, _exec_job_main_thread)
+        frame_scan.check("C06", "eval_hash", {F + "Job.__init__", F + "Scheduler._exec_job_main_thread"} | other_hash, Result),
+        frame_scan.check("C06", "context_hash", {F + "Job.__init__", F + "Scheduler._exec_job_main_thread"}, Result),
+        # executors receive jobs only from _exec_job_main_thread
+        frame_scan.check_call_sites("C06", "executor-hand-off", {"submit", "submit_script"},
+                                    {F + "Scheduler._exec_job_main_thread"}, Result, files=["redun/scheduler.py"]),
+    ]
+
+
+def bounded_orders(tier, seed):
+    return [bounded.run("C06", "completion-orders", env={"VERIF_TIER": tier, "VERIF_SEED": str(seed)},
+                        rule="small programs with repeated calls x every completion order (deterministic executor); distinct = distinct (program, completion order)")]
+
+
+EXTRA_CHECKS = [frame_checks, bounded_orders]
 VERIFY = ["Scheduler._check_pending_job", "Scheduler._exec_job_main_thread", "Scheduler._finalize_job", "Scheduler.clear"]
 EXPECTED_MIN_OBLIGATIONS = 15
 TRUSTED = ["A-FRAME (frame scan of _pending_jobs / eval_hash / context_hash writers)", "A-QUEUE (done_job/reject_job only enqueue)"]
 ASSUMPTIONS = [
     "ghost set `submitted` = jobs handed to executor.submit/submit_script and not yet finalized; each scheduler event handler is an atomic step on the scheduler thread",
-    "the evaluated options of a job (cache_scope, allowed_cache_results) are functions of the job (C27 proves eval_options is written once)",
+    "the evaluated options of a job (cache_scope, allowed_cache_results, prov) are functions of the job (C27 proves eval_options is written once)",
+    "prov=False implies cache_scope NONE in the evaluated options (postcondition proved under C27, used here as an axiom)",
     "hash_args_eval / get_hash identify the call (C15/C18); equal keys = same task hash, argument hashes and context",
     "a finished twin is found through the backend CSE lookup (contracts under C12/C28/C05), not through _pending_jobs",
 ]
